@@ -235,6 +235,11 @@ def both_files_life(ctx):
 
 
 def run(ctx):
+    # `init` never hides data — also data that another process writes while init is on its way: init takes no lock, so on a store that has no log yet
+    # it is parked after each of its calls while a writer runs to completion, and the other way round (the scenario of C02, where init is one of
+    # the commands the quantifier names)
+    from . import c02
+    c02.init_races(ctx, gen.Rng(ctx.seed * 1000003 + 1818), prop="C18", layouts=("lock only", "bare", "legacy"))
     framework.check_facts(ctx, ctx.facts, ["log_name_uses"])
     res = fndiff.run_stream(ctx.ev, ["fn-path", str(ctx.seed + 1800), "1500" if ctx.quick else "20000"])
     ctx.tie("T2-fn Clean/Dir/Base/Join/resolveErgoDir", cases=res["cases"], disagreements=len(res["diffs"]))
